@@ -134,11 +134,19 @@ func genRe(r *rand.Rand, depth int, alphabet string, grp *int, allowGroups bool,
 		return &Re{Kind: "alt", A: a, B: b}
 	case 7:
 		op := []string{"star", "plus", "opt"}[r.Intn(3)]
+		g0 := *grp
 		body := genRe(r, depth-1, alphabet, grp, allowGroups, names)
 		if op != "opt" && body.nullable() {
 			// a repetition of a body that can match the empty string: Go's capture semantics for
 			// empty iterations is outside the regex environment model; make the body consume a byte
 			body = &Re{Kind: "seq", A: &Re{Kind: "chr", C: alphabet[r.Intn(len(alphabet))]}, B: body}
+		}
+		if op != "opt" && body.branching() {
+			// a repeated alternation / nested repetition makes the backtracking matcher of the regex
+			// environment model exponential on lines that do not match (Go's matcher is linear): the model
+			// would never answer; repeat a branch-free body instead
+			body = &Re{Kind: "chr", C: alphabet[r.Intn(len(alphabet))]}
+			*grp = g0 // the groups of the discarded body do not exist
 		}
 		return &Re{Kind: op, A: body}
 	default:
@@ -154,6 +162,19 @@ func genRe(r *rand.Rand, depth int, alphabet string, grp *int, allowGroups bool,
 		g.A = genRe(r, depth-1, alphabet, grp, allowGroups, names)
 		return g
 	}
+}
+
+// branching: contains an alternation, an optional part or a repetition
+func (r *Re) branching() bool {
+	switch r.Kind {
+	case "alt", "star", "plus", "opt":
+		return true
+	case "seq":
+		return r.A.branching() || r.B.branching()
+	case "grp":
+		return r.A.branching()
+	}
+	return false
 }
 
 func (r *Re) nullable() bool {
